@@ -4377,26 +4377,47 @@ func runPAIR(c *Ctx, r *Result, rule string, fns []*ssa.Function) int {
 			}
 			// named results that a deferred closure can see are returned through their cells:
 			// what is returned is what this block stored into them last
-			cellVal := func(x ssa.Value) ssa.Value {
+			// what a load of a result cell yields: the last value stored into the cell before the
+			// load, looked up through loads of cells in turn (`root, err = f(); return root, err`
+			// stores, reloads and stores again)
+			var cellAt func(x ssa.Value, depth int) ssa.Value
+			cellAt = func(x ssa.Value, depth int) ssa.Value {
 				ld, ok := x.(*ssa.UnOp)
-				if !ok || ld.Op != token.MUL {
+				if !ok || ld.Op != token.MUL || depth > 6 {
 					return x
 				}
 				al, ok := ld.X.(*ssa.Alloc)
 				if !ok {
 					return x
 				}
-				var last ssa.Value
-				for _, ins := range b.Instrs {
-					if st, isSt := ins.(*ssa.Store); isSt && st.Addr == ssa.Value(al) {
-						last = st.Val
+				blk := ld.Block()
+				limit := -1
+				for k, ins := range blk.Instrs {
+					if ins == ssa.Instruction(ld) {
+						limit = k
 					}
 				}
-				if last != nil {
-					return last
+				for hops := 0; blk != nil && hops < 4; hops++ {
+					var last ssa.Value
+					for k, ins := range blk.Instrs {
+						if limit >= 0 && k >= limit {
+							break
+						}
+						if st, isSt := ins.(*ssa.Store); isSt && st.Addr == ssa.Value(al) {
+							last = st.Val
+						}
+					}
+					if last != nil {
+						return cellAt(last, depth+1)
+					}
+					if len(blk.Preds) != 1 {
+						break
+					}
+					blk, limit = blk.Preds[0], -1
 				}
 				return x
 			}
+			cellVal := func(x ssa.Value) ssa.Value { return cellAt(x, 0) }
 			v, e = cellVal(v), cellVal(e)
 			forwarded := false
 			if x0, ok0 := v.(*ssa.Extract); ok0 {
@@ -4566,6 +4587,21 @@ func runACCFRESH(c *Ctx, r *Result, rule string) int {
 				return true
 			case "reflect.Append", "reflect.AppendSlice":
 				return fresh(x.Call.Args[0], depth+1)
+			}
+			// a constructor of the module: every return is a fresh list
+			if g := x.Call.StaticCallee(); g != nil && c.G.InSc[g] && len(g.Blocks) > 0 {
+				nret := 0
+				for _, b := range g.Blocks {
+					ret, ok := b.Instrs[len(b.Instrs)-1].(*ssa.Return)
+					if !ok || len(ret.Results) == 0 {
+						continue
+					}
+					nret++
+					if !fresh(ret.Results[0], depth+1) {
+						return false
+					}
+				}
+				return nret > 0
 			}
 			return false
 		case *ssa.Parameter:
